@@ -17,7 +17,9 @@ from vf import detloop, env, xs
 
 YMAX = 2
 STATES = 0  # index into STATE_SETS
-STATE_SETS = ((1, 0, 0), (0, 1, 2), (1, 1, 0), (2, 0, 1), (1, 1, 1), (1, 2, 0))
+STATE_SETS = ((1, 0, 0), (0, 1, 2), (1, 1, 0), (2, 0, 1), (1, 1, 1), (1, 2, 0), (0, 0, 1))
+RCONLY = 0
+YUMAX = 2
 EXPRS = ("Muss [1] U [501] Soll [2][901] Kann [3] O [1]", "Muss ([1] O [2]) U [3][902] Soll [3] X [1][901]", "X [1][901] U ([2] O [3]) U [502]")
 EXPR = 0
 FIXY1 = -1
@@ -33,7 +35,7 @@ def _summary(r):
 
 def pipeline(y1: int, y2: int, y3: int, yf: int, yg: int, yh: int) -> bool:
     """
-    pre: (FIXY1 < 0 or y1 == FIXY1) and 0 <= y1 <= YMAX and 0 <= y2 <= YMAX and 0 <= y3 <= YMAX and 0 <= yf <= YMAX and 0 <= yg <= YMAX and 0 <= yh <= YMAX
+    pre: (RCONLY == 0 or (yf == 0 and yg == 0 and yh == 0)) and (FIXY1 < 0 or y1 == FIXY1) and 0 <= y1 <= YMAX and 0 <= y2 <= YMAX and 0 <= y3 <= YMAX and 0 <= yf <= YMAX and 0 <= yg <= YMAX and 0 <= yh <= YMAX
     post: _
     """
     ys = {"1": xs.pick(y1, 0, YMAX + 1), "2": xs.pick(y2, 0, YMAX + 1), "3": xs.pick(y3, 0, YMAX + 1), "901": xs.pick(yf, 0, YMAX + 1), "902": xs.pick(yg, 0, YMAX + 1), "501": xs.pick(yh, 0, YMAX + 1), "502": 0}
@@ -194,4 +196,61 @@ def concurrent(a1: int, a2: int, b1: int, b2: int, fa: bool, fb: bool, off: int,
     xs.reached()
     if list(got) != solo:
         return xs.fail(f"{n} concurrent evaluations of '{text}' with context-local data (start offsets {[(off * i) % 3 for i in range(n)]}): results {list(got)}; each on its own gives {solo}", **d)
+    return True
+
+
+def concurrent_user(a1: int, a2: int, b1: int, b2: int, ya: int, yb: int, off: int) -> bool:
+    """
+    pre: 0 <= a1 < 3 and 0 <= a2 < 3 and 0 <= b1 < 3 and 0 <= b2 < 3 and 0 <= ya <= YUMAX and 0 <= yb <= YUMAX and 0 <= off <= 1
+    pre: FIX3[0] < 0 or (a1 == FIX3[0] and a2 == FIX3[1] and b1 == FIX3[2])
+    post: _
+    """
+    # two concurrent evaluations; a user-written RcEvaluator (evaluate_<key> coroutine methods that really suspend) judges by the
+    # evaluatable data handed to it, which comes from context-local storage
+    a1, a2, b1, b2 = xs.pick(a1, 0, 3), xs.pick(a2, 0, 3), xs.pick(b1, 0, 3), xs.pick(b2, 0, 3)
+    ya, yb, off = xs.pick(ya, 0, YUMAX + 1), xs.pick(yb, 0, YUMAX + 1), xs.pick(off, 0, 2)
+    from ahbicht.content_evaluation.rc_evaluators import RcEvaluator
+
+    text = "Muss [1] U [2] Soll [2] Kann [1] O [2]"
+    log = env.Log()
+    with xs.nt():
+        env.install_parser_proxies()
+
+        def mk(key):
+            async def ev(self, evaluatable_data, context):
+                body = evaluatable_data.body
+                await detloop.yields(body["yields"])
+                return env.STATES[body[key]]
+
+            return ev
+
+        cls = type("UserRc", (RcEvaluator,), {"evaluate_1": mk("1"), "evaluate_2": mk("2"), "_get_default_context": lambda self: None})
+        rc = cls()
+        rc.edifact_format, rc.edifact_format_version = env.FMT, env.FV
+        env.configure([rc, env.make_fc_evaluator({}, {}, log), env.YHints({}, {}, log), env.YResolver({}, [], log)], _provider)
+        bodies = [{"1": a1, "2": a2, "yields": ya}, {"1": b1, "2": b2, "yields": yb}]
+
+    async def one(body, delay):
+        DATA.set(body)
+        await detloop.yields(delay)
+        tree = await parse_expression_including_unresolved_subexpressions(text)
+        return _summary(await evaluate_ahb_expression_tree(tree))
+
+    try:
+        solo = [detloop.run(one(b, 0)) for b in bodies]
+    except Exception as e:  # pylint:disable=broad-except
+        raise xs.HarnessError(f"solo evaluation failed: {type(e).__name__}: {e}") from e
+
+    async def both():
+        return await asyncio.gather(one(bodies[0], 0), one(bodies[1], off))
+
+    d = dict(a1=a1, a2=a2, b1=b1, b2=b2, ya=ya, yb=yb, off=off)
+    try:
+        got = detloop.run(both())
+    except Exception as e:  # pylint:disable=broad-except
+        xs.reached()
+        return xs.fail(f"concurrent evaluations raised {type(e).__name__}: {e}", **d)
+    xs.reached()
+    if list(got) != solo:
+        return xs.fail(f"two concurrent evaluations of '{text}' with a user evaluator judging context-local data {bodies} (second started {off} turns later): results {list(got)}; each on its own gives {solo}", **d)
     return True
